@@ -18,6 +18,8 @@ thread_local! {
     static SIGN_FLIP: Cell<u64> = const { Cell::new(0) };
     static RESPLIT: Cell<u64> = const { Cell::new(0) };
     static HUGE_LEAD: Cell<u64> = const { Cell::new(0) };
+    static RC_DROP: Cell<u64> = const { Cell::new(0) };
+    static RC_DROP_LAGGING: Cell<u64> = const { Cell::new(0) };
 }
 fn bump(c: &'static std::thread::LocalKey<Cell<u64>>) {
     c.with(|c| c.set(c.get() + 1));
@@ -269,6 +271,78 @@ fn huge_fork_probe(rep: &mut Report, seed: u64, r: usize, by_rc: bool, steps: us
     }
 }
 
+// ------------------------------------------------------------------ by_rc: one handle dropped
+/// by_rc branches are independent owners: either handle may be dropped at any point and the
+/// survivor must go on receiving exactly its own next frames (first whatever is still queued for
+/// it, then fresh source frames), whether it was ahead or behind. The schedule is followed until
+/// step `at`; there branch A (or B) is dropped and every remaining step goes to the survivor.
+/// The ring buffer starts at a non-zero offset (`len(schedule) % cap`).
+fn run_rc_drop(rep: &mut Report, cap: usize, sched: &[bool], drop_a: bool, at: usize, src_len: Option<u64>) -> bool {
+    let case = || format!("cap={};mode=RcDrop{}{};store=vec;len={};sched={}", cap, if drop_a { 'A' } else { 'B' }, at, src_len.map(|l| l as i64).unwrap_or(-1), sched_str(sched));
+    let r = vmon::catch(std::panic::AssertUnwindSafe(|| -> Result<(), (String, String)> {
+        let probe = Probe::new();
+        let src = match src_len {
+            Some(l) => USource::generated(gen_frame, l, probe.clone()),
+            None => USource::infinite(gen_frame, probe.clone()),
+        };
+        let model = Model { a: 0, b: 0, cap: cap as u64, last_sign: 0, len: src_len };
+        let (a, b) = src.fork(ring_buffer::Bounded::from_raw_parts(sched.len() % cap, 0, vec![0f64; cap])).by_rc();
+        let (mut a, mut b) = (Some(a), Some(b));
+        let (mut pa, mut pb) = (0u64, 0u64);
+        let mut pulled = 0u64;
+        for (k, &want_a) in sched.iter().enumerate() {
+            if k == at {
+                let lagging = if drop_a { pa < pb } else { pb < pa };
+                if drop_a {
+                    a = None;
+                } else {
+                    b = None;
+                }
+                bump(&RC_DROP);
+                if lagging {
+                    bump(&RC_DROP_LAGGING);
+                }
+            }
+            let is_a = if a.is_none() { false } else if b.is_none() { true } else { want_a };
+            let pos = if is_a { pa } else { pb };
+            let got = if is_a { a.as_mut().unwrap().next() } else { b.as_mut().unwrap().next() };
+            if is_a {
+                pa += 1
+            } else {
+                pb += 1
+            }
+            pulled = pulled.max(pos + 1);
+            bump(&EVALS);
+            if got != model.frame(pos) {
+                let what = if got < model.frame(pos) { "frame_duplicated_or_reordered" } else { "frame_lost" };
+                return Err((format!("fork|rc_handle_dropped|{}", what), format!("step {} (branch {}, {} dropped at step {}): returned {} but the branch is at position {} (source frame value {})", k, if is_a { 'A' } else { 'B' }, if drop_a { 'A' } else { 'B' }, at, got, pos, model.frame(pos))));
+            }
+            if probe.pulls() != pulled {
+                return Err(("fork|rc_handle_dropped|source_pull_count".into(), format!("step {}: source pulled {} times, distinct frames consumed {}", k, probe.pulls(), pulled)));
+            }
+            let pend = if is_a { a.as_ref().unwrap().pending_frames() } else { b.as_ref().unwrap().pending_frames() } as u64;
+            // the lead never exceeded the capacity while both were alive, so the queue of the
+            // branch that is behind is exactly its lag; a branch that is ahead has none
+            let lag = pulled - if is_a { pa } else { pb };
+            if pend != lag {
+                return Err(("fork|rc_handle_dropped|pending_frames".into(), format!("step {}: pending_frames = {}, lag {}", k, pend, lag)));
+            }
+        }
+        Ok(())
+    }));
+    match r {
+        Ok(Ok(())) => true,
+        Ok(Err((sig, d))) => {
+            rep.violation(&sig, format!("cap {} schedule {}: {}", cap, sched_str(sched), d), case());
+            false
+        }
+        Err(m) => {
+            rep.violation("fork|rc_handle_dropped|panic", format!("cap {} schedule {} drop {} at {}: panicked: {}", cap, sched_str(sched), if drop_a { 'A' } else { 'B' }, at, m), case());
+            false
+        }
+    }
+}
+
 /// every maximal legal schedule of length `len` for capacity `cap`
 fn enumerate(cap: usize, len: usize, mut f: impl FnMut(&[bool])) {
     fn rec(cap: i64, len: usize, lead: i64, cur: &mut Vec<bool>, f: &mut dyn FnMut(&[bool])) {
@@ -329,6 +403,12 @@ fn flush(rep: &mut Report) {
     rep.hit_n("lead_reached_capacity", LEAD_AT_CAP.with(|c| c.replace(0)));
     rep.hit_n("lead_changed_sign", SIGN_FLIP.with(|c| c.replace(0)));
     rep.hit_n("re_split", RESPLIT.with(|c| c.replace(0)));
+    for (c, name) in [(&RC_DROP, "rc_handle_dropped"), (&RC_DROP_LAGGING, "rc_lagging_handle_dropped")] {
+        let n = c.with(|c| c.replace(0));
+        if n > 0 {
+            rep.hit_n(name, n);
+        }
+    }
     let h = HUGE_LEAD.with(|c| c.replace(0));
     if h > 0 {
         rep.hit_n("huge_ring_lead_above_8", h);
@@ -351,6 +431,13 @@ fn main() {
         let sched: Vec<bool> = m["sched"].chars().map(|c| c == 'A').collect();
         let ms = m["mode"].as_str();
         let num = |s: &str| -> usize { s.trim_matches(|c: char| !c.is_ascii_digit()).parse().unwrap_or(0) };
+        if ms.starts_with("RcDrop") {
+            eprintln!("CASE {}", cs);
+            let l: i64 = m.get("len").map(|x| x.parse().unwrap()).unwrap_or(-1);
+            run_rc_drop(&mut rep, cap, &sched, ms.as_bytes()[6] == b'A', num(&ms[7..]), if l < 0 { None } else { Some(l as u64) });
+            flush(&mut rep);
+            finish(&cli, rep, t0);
+        }
         let mode = if ms.starts_with("ByRef") {
             Mode::ByRef
         } else if ms.starts_with("ByRc") {
@@ -372,6 +459,8 @@ fn main() {
     let lean = cli.stage == "miri";
     match cli.stage.as_str() {
         "main" | "release" | "asan" => {
+            rep.oblige("rc_handle_dropped", 1);
+            rep.oblige("rc_lagging_handle_dropped", 1);
             let len = if cli.stage == "asan" { 10 } else { cli.t(12, 18) };
             let caps: Vec<usize> = (1..=4).collect();
             let reps = vmon::par_for(cli.threads, caps.len() as u64 * 2, 1, |_| Report::new("C12", "w"), |rep, i| {
@@ -392,6 +481,10 @@ fn main() {
                 enumerate(cap, rl, |s| {
                     for split in 0..=rl {
                         run_schedule(rep, cap, s, if i % 2 == 0 { Mode::ReSplitRef(split) } else { Mode::RefThenRc(split) }, false);
+                    }
+                    // by_rc with one handle dropped at every point (A in one worker, B in the other)
+                    for at in 0..rl {
+                        run_rc_drop(rep, cap, s, i % 2 == 0, at, if at % 3 == 2 { Some(rl as u64 / 2) } else { None });
                     }
                 });
                 flush(rep);
